@@ -54,7 +54,10 @@ func newIDP(d *driver) *idp {
 	p := &idp{d: d}
 	mux := http.NewServeMux()
 	mux.HandleFunc("/", p.serve)
-	p.srv = httptest.NewServer(mux)
+	p.srv = httptest.NewUnstartedServer(mux)
+	// the service builds a new HTTP transport per check; do not let their idle connections pile up
+	p.srv.Config.SetKeepAlivesEnabled(false)
+	p.srv.Start()
 	p.reset()
 	return p
 }
